@@ -163,6 +163,7 @@ extern "C" void h_reset() {
   bool codeq = V_N(vm.code.code) == V_N(fresh.code.code);
   for (int i = 0; i < VM_L; i++) if (i < n) { const Instruction &A = V_AT(vm.code.code, i), &B = V_AT(fresh.code.code, i); codeq = codeq && A.op == B.op && A.parameters.test.target == B.parameters.test.target && A.parameters.test.op1 == B.parameters.test.op1 && A.parameters.test.op2 == B.parameters.test.op2; }
   ASSERT(codeq, "C17: after reset every breakpoint site is back to its passive form and the code equals the original");
+  ASSERT(codeq && V_N(vm.enabled_breakpoints) == 0, "C06: a reset empties the enabled set and disarms every site (a site is armed exactly when its location is enabled)");
   BreakPoint bp = vm.getCurrentBreak();
   ASSERT(bp.line == -1, "C17: after reset no current location is reported");
   bool tabs = tables_match(vm, s) && tables_match(fresh, s);
